@@ -63,6 +63,7 @@ struct LrAdapter : Adapter {
     }
     return "?";
   }
+  bool lock_free(const Case&, const OpSpec& op) override { return op.name == "read"; }
   void teardown(std::vector<std::string>& out) override {
     { xv::Quiet q; out.push_back("final " + std::to_string(lr->_left.x) + " " + std::to_string(lr->_left.y) + " " + std::to_string(lr->_right.x) + " " + std::to_string(lr->_right.y)); }
     delete lr;
